@@ -1,4 +1,5 @@
 #!/bin/bash
+export VERIF_EVIDENCE_DIR=/verif/target/scratch-evidence  # never touch the committed evidence
 # usage: run_seeded.sh <patch.diff> <prop> [<prop> ...]  -- apply a seeded change to /repo, run the quick checks, undo it
 set -u
 PATCH=$1; shift
